@@ -12,7 +12,7 @@ class IncSolver(object):
         s.p = subprocess.Popen([z3bin, '-in'], stdin=subprocess.PIPE, stdout=subprocess.PIPE, text=True, bufsize=1)
         s.em = Emitter()
         s.record = [] if record else None
-        s.send('(set-option :print-success false)\n(set-option :produce-models true)\n(set-logic %s)\n' % logic)
+        s.send('(set-option :print-success false)\n(set-option :produce-models true)\n(set-option :produce-unsat-cores true)\n(set-option :smt.core.minimize true)\n(set-logic %s)\n' % logic)
         s.cache = {}
         s.per_check_ms = per_check_ms; s.cur_timeout = None
         s.nchecks = 0; s.nunsat = 0; s.time = 0.0; s.nunknown = 0
@@ -39,6 +39,24 @@ class IncSolver(object):
             ans = ans.strip()
             if ans.startswith('(error'): raise RuntimeError('solver: ' + ans)
             if ans in ('sat', 'unsat', 'unknown', 'timeout'): return ans
+    def _ask_many(s, lits):
+        s.send('(check-sat-assuming (%s))\n' % ' '.join(smt_name(l) for l in lits))
+        s.p.stdin.flush()
+        while True:
+            ans = s.p.stdout.readline()
+            if ans == '': raise RuntimeError('solver process died')
+            ans = ans.strip()
+            if ans.startswith('(error'): raise RuntimeError('solver: ' + ans)
+            if ans in ('sat', 'unsat', 'unknown', 'timeout'): return ans
+    def learn_core(s, lits):
+        s.send('(get-unsat-core)\n'); s.p.stdin.flush()
+        line = s.p.stdout.readline().strip()
+        while line.count('(') > line.count(')'):
+            line += ' ' + s.p.stdout.readline().strip()
+        if line.startswith('(error'): return
+        names = set(re.findall(r'\|[^|]*\||n\d+', line))
+        ids = [l.id for l in lits if smt_name(l) in names]
+        if ids and len(ids) == len(names): learn_nogood(ids)
     def feasible(s, e):
         """False only if e is definitely unsatisfiable"""
         if e is TRUE: return True
@@ -47,10 +65,16 @@ class IncSolver(object):
         if r is not None: return r
         t0 = time.time()
         s.define(e); s.set_timeout(s.per_check_ms)
-        ans = s._ask(e)
-        s.nchecks += 1; s.time += time.time() - t0
+        lits = e.args if e.op == 'and' else (e,)
+        for l in lits: s.define(l)
+        ans = s._ask_many(lits)
+        s.nchecks += 1
         r = ans != 'unsat'
-        if ans == 'unsat': s.nunsat += 1
+        if ans == 'unsat':
+            s.nunsat += 1
+            if len(lits) > 1: s.learn_core(lits)
+        s.time += time.time() - t0
+        if False: pass
         elif ans != 'sat': s.nunknown += 1
         s.cache[e.id] = r
         return r
